@@ -12,6 +12,7 @@ import (
 	"errors"
 	"fmt"
 	"html"
+	"reflect"
 	"strings"
 	"sync"
 	"testing"
@@ -27,7 +28,7 @@ type C07Case struct {
 	Pos   int    `json:"pos"`   // syntactic position of the filter
 }
 
-var c07Shapes = []string{"string", "bytes", "stringer", "strslice", "strmap", "struct", "ptr", "named", "intstringer", "boolstringer", "floatstringer", "error", "ptrstring", "iface-slice"}
+var c07Shapes = []string{"string", "bytes", "stringer", "strslice", "strmap", "struct", "ptr", "named", "intstringer", "boolstringer", "floatstringer", "error", "ptrstring", "iface-slice", "float32", "float64", "namedbytes", "uint8", "int64", "bool"}
 
 // numeric and boolean named types whose String method returns arbitrary text (an enum printing
 // "<unknown>"): the text lives in a table indexed by the value
@@ -73,6 +74,8 @@ type c07Struct struct {
 	B int
 }
 
+type c07Bytes []byte
+
 func c07Value(c C07Case) interface{} {
 	s := string(c.Val)
 	switch c.Shape {
@@ -105,6 +108,20 @@ func c07Value(c C07Case) interface{} {
 		return &s
 	case "iface-slice":
 		return []interface{}{s, 1, c07Stringer{s}}
+	// plain scalars of several widths (numbers derived from the text): what the filter makes of them
+	// must decode to what the print tag prints
+	case "float32":
+		return float32(len(s)%97)/10 + 0.1
+	case "float64":
+		return float64(len(s)%89)/10 + 0.7
+	case "uint8":
+		return uint8(len(s))
+	case "int64":
+		return -int64(len(s)) * 1000003
+	case "bool":
+		return len(s)%2 == 0
+	case "namedbytes":
+		return c07Bytes(s)
 	}
 	return s
 }
@@ -195,6 +212,13 @@ func c07CheckOut(pre, out string, what string) error {
 
 func checkC07(c C07Case) error {
 	v := c07Value(c)
+	if c.Pos == 2 {
+		// this position sends the value through default(''), which replaces empty values (false, 0,
+		// empty collections): nothing is left to escape
+		if rv := reflect.ValueOf(v); rv.IsZero() || ((rv.Kind() == reflect.Slice || rv.Kind() == reflect.Map) && rv.Len() == 0) {
+			return nil
+		}
+	}
 	ctx := map[string]interface{}{"v": v}
 	// pre-image: the text the engine prints for the value without the filter
 	pre := string(c.Val)
@@ -357,7 +381,7 @@ func isASCII(s string) bool {
 	return true
 }
 
-const c07Rule = "random strings (all of Unicode, raw bytes incl. invalid UTF-8, pieces of HTML and of already-escaped text) as 14 Go value shapes (string, []byte, Stringer struct, named int / float / bool types with a String method, error, pointer to string, slices, maps, structs) in 20 filter positions (4 of them apply the filter to its own output, 2 lie in a sandboxed include under NewDefaultSecurityPolicy); non-trivial = the text contains one of < > & \" ' or a byte >= 0x80; distinct by (value, shape, position)"
+const c07Rule = "random strings (all of Unicode, raw bytes incl. invalid UTF-8, pieces of HTML and of already-escaped text) as 20 Go value shapes (string, []byte and a named byte-slice type, Stringer struct, named int / float / bool types with a String method, plain float32 / float64 / uint8 / int64 / bool, error, pointer to string, slices, maps, structs) in 20 filter positions (4 of them apply the filter to its own output, 2 lie in a sandboxed include under NewDefaultSecurityPolicy); non-trivial = the text contains one of < > & \" ' or a byte >= 0x80; distinct by (value, shape, position)"
 
 func TestC07Escape(t *testing.T) {
 	r := NewRec(t, "C07", c07Rule)
